@@ -199,6 +199,8 @@ def check(rep, F, tier, replay=None):
         if not cs or not has_origin(org.of_operand(cs[0].args[1]), call_origin("TransactionOutput::to_bytes")):
             rep.violation("K-overhead", "size-source", "calc_required_coin does not price the serialized size of the output (to_bytes().len())", {})
     fixpoint_rule(rep, F)
+    from ruleutil import batch_total_rule
+    batch_total_rule(rep, F)
     return rep.finish(
         EXPLANATION,
         ["min_ada_for_output's numeric bound (fixed point over the coin width) is not decided statically", "collateral return gates are C19's rules"],
